@@ -5,6 +5,7 @@
 /*G*/            (ffin(self.lower) && ffin(self.upper) && ffin(rhs.lower) && ffin(rhs.upper)) ==>
 /*G*/                forall|x: f32, y: f32| mem(x, self) && mem(y, rhs) && !fnan(#[trigger] x.mul_spec(y)) ==> mem(x.mul_spec(y), r)
     {
+/*G*/        proof { ax_ops(self.lower, rhs.lower); ax_ops(self.lower, rhs.upper); ax_ops(self.upper, rhs.lower); ax_ops(self.upper, rhs.upper); }
 /*G*/        proof { ax_fin(self.lower, self.lower, self.lower); ax_fin(self.upper, self.upper, self.upper); ax_fin(rhs.lower, rhs.lower, rhs.lower); ax_fin(rhs.upper, rhs.upper, rhs.upper); }
         if self.has_nan() || rhs.has_nan() {
             return nan_interval();
@@ -15,13 +16,11 @@
             let i = self.lower;
             {
                 let j = rhs.lower;
-/*G*/                proof { ax_ops(i, j); }
                 out[k] = i * j;
                 k += 1;
             }
             {
                 let j = rhs.upper;
-/*G*/                proof { ax_ops(i, j); }
                 out[k] = i * j;
                 k += 1;
             }
@@ -30,13 +29,11 @@
             let i = self.upper;
             {
                 let j = rhs.lower;
-/*G*/                proof { ax_ops(i, j); }
                 out[k] = i * j;
                 k += 1;
             }
             {
                 let j = rhs.upper;
-/*G*/                proof { ax_ops(i, j); }
                 out[k] = i * j;
                 k += 1;
             }
